@@ -525,7 +525,8 @@ std::string sqf::parser::preprocessor::impl_default::instance::handle_arg(::sqf:
             {
                 inside_word = false;
                 auto word = local_fileinfo.content.substr(word_start, local_fileinfo.off - word_start - (!part_of_word ? 1 : 0));
-                auto res = try_get_macro(word);
+                // (a parameter of the macro whose body is being expanded hides a macro of the same name, as in replace())
+                auto res = param_map.find(word) != param_map.end() ? std::optional<::sqf::runtime::parser::macro>{} : try_get_macro(word);
                 if (res.has_value())
                 {
                     if (res.value().is_callable() && !part_of_word)
